@@ -9,18 +9,18 @@ V = os.path.dirname(os.path.dirname(os.path.abspath(__file__)))
 TEXT = {
  'C01': ('refinement theorem R (compile correctness of the emission, by induction on PEG derivations, memo table included) and its closure C01_generated_parser: for every linked grammar passing decidable checks, every rule as entry and every input, each run of the function the model generator emits returns true exactly when the PEG semantics matches a prefix and stops at its end, never panics; plus determinism of the semantics and soundness of the reference interpreter; tied to /repo by T-emit (whole emitted programs equal the model generator\'s IR) and T-run (compiled parsers vs model vs spec on every rule as entry).',
          'Lean model of Compile/runtime tied by differential execution; Go statement semantics, go/parser, go/printer trusted.'),
- 'C02': ('-inline: Eval_expandG_iff + R on the inlined program: C02_inline_same_as_default (same verdict, end, tokens, error token as the default parser). -switch: the rewrite is unsound on some grammars (known finding F-C02-1), so it is decided by translation validation: a sound first-set analysis (firstE_sound), the decidable check switchSafe (valid rearrangement of every rewritten choice + parentDetect elisions justified by the case keys), and C02_switch_same_as_default: whenever switchSafe holds, the -switch parser and the default parser return the same verdict, prefix and token sequence on every input from every post-Reset state and never panic; the driver evaluates switchSafe on every -switch program of the sweeps, and a disagreement on a switchSafe program is never attributed to the known finding. Ties: T-emit (the Lean transcription of optimizeAlternates + compile equals the real emission on every program, all option sets), T-run real vs model vs spec incl. the exhaustive skeleton enumeration of 3-way choices, real vs real against the default parser.',
-         'as C01; -switch combined with -inline or -noast: tie only'),
+ 'C02': ('-inline: Eval_expandG_iff + R on the inlined program: C02_inline_same_as_default (same verdict, end, tokens, error token as the default parser). -switch: the rewrite is unsound on some grammars (it was unsound on the pinned code — repaired in /repo by four fix: commits found with these theorems), so it is decided by translation validation: a sound first-set analysis (firstE_sound), the decidable check switchSafe (valid rearrangement of every rewritten choice + parentDetect elisions justified by the case keys), and C02_switch_same_as_default: whenever switchSafe holds, the -switch parser and the default parser return the same verdict, prefix and token sequence on every input from every post-Reset state and never panic; the driver evaluates switchSafe on every -switch program of the sweeps, and a program on which the hypothesis fails is reported. Ties: T-emit (the Lean transcription of optimizeAlternates + compile equals the real emission on every program, all option sets), T-run real vs model vs spec incl. the exhaustive skeleton enumeration of 3-way choices, real vs real against the default parser.',
+         'as C01; -inline -switch: C02_inline_switch_same_as_default under inlineSwitchSafe; the per-option hypothesis is evaluated on every -switch program of the sweeps and a program on which it fails is reported as a broken obligation'),
  'C03': ('token stream = post-order of the derivation forest: spec-level theorems + T-run comparison of Tokens() with postorder of the evalF forest (rune offsets, multi-byte inputs).', 'as C01'),
  'C04': ('Execute() = left-to-right action trace with the last completed capture: proved for all forests (C04Exec) over the token list; tied by T-run probe-action traces.', 'as C01; user action code is modelled as opaque trace events'),
  'C05': ('AST()/printers = pruned derivation tree: proved for all well-nested forests (C05Ast), incl. equal spans and zero-width tokens; tied by T-run (SprintSyntaxTree, up/next walk).', 'as C01; strconv.Quote is a parameter of the model (compared as strings in the tie)'),
  'C06': ('R is proved with the memo table present (invariant MemoOK + absorption lemma): C06_memo_invisible — the same emitted parser with memoisation and with DisableMemoize returns the same verdict, position, tokens and error token; C06_replay_exact — a hit restores exactly what a re-run would; tie: every case run with memo on and off (real vs real, vs model with the memo table, vs spec).', 'as C01'),
- 'C07': ('-noast: verdict equal to the default parser and to the spec; inline-action trace equal to the spec\'s reach-order trace with last capture.', 'as C01'),
- 'C08': ('hygiene theorems about the emission (labels unique per function, dry and real pass number labels identically and print the same jumps without -switch) + the implementation-side validity oracle on every emitted file of both sweeps (go/parser inside peg, go build = parse + type-check, gofmt idempotence) under all eight option sets, plus streams the generator cannot produce (300/1200(+) rules, imports incl. alias/grouped/duplicate of a runtime import, header comments, control and non-ASCII literals, comments and braces inside actions).',
+ 'C07': ('RN_all / RNS_all: the refinement induction for parsers without AST (verdict, position, inline-action trace = reach-order trace of the attempted tokens with the last completed capture, maxToken over non-capture tokens), generalised over the parentDetect flags and covering switch nodes and rules compiled in place: C07_generated_parser (-noast), C07_inline_generated_parser (-inline -noast), C07_switch_generated_parser (-noast -switch), C07_inline_switch_generated_parser (-inline -noast -switch), each with verdict and end equal to the PEG semantics of the original grammar and to the default parser (…_same_language_as_default) under a decidable side condition that the driver evaluates on every program of the sweeps; ties: T-emit on all four -noast option sets, T-run verdict vs spec and vs the default parser, inline-action trace vs the reach-order spec (of the rewritten grammar under -switch).', 'as C01; grammars with state-change statements are outside the -noast theorems (tie only)'),
+ 'C08': ('hygiene theorems about the emission (labels unique per function, dry and real pass number labels identically and print the same jumps with -switch nodes too: C08_dry_real_same_jumps_switch, C08_switch_labels_unique) + the implementation-side validity oracle on every emitted file of both sweeps (go/parser inside peg, go build = parse + type-check, gofmt idempotence) under all eight option sets, plus streams the generator cannot produce (300/1200(+) rules, imports incl. alias/grouped/duplicate of a runtime import, header comments, control and non-ASCII literals, comments and braces inside actions).',
          'Go type checker, go/parser, go/printer and gofmt are oracles of the tie, not modelled; no mechanised Go semantics is available offline.'),
  'C09': ('logic core proved for all schedules (Bernstein: threads with disjoint read/write footprints give a schedule-independent final state; no conflicting access), instantiated by kernel-decided disjointness of the footprints of the two analysis goroutines, which a go/ast+go/types translator re-extracts from tree/peg.go on every run (also: no map iteration, no package-level writes, no unknown constructs); dynamic validation with the race detector: concurrent Compiles, GOMAXPROCS 1/2/16, byte-identical outputs and warnings across repetitions and processes.',
          'Go memory model (DRF => SC) and WaitGroup ordering assumed; extractor soundness assumed and validated by -race runs; determinism of the sequential rest of Compile is the Lean model of Compile tied by T-emit.'),
- 'C12': ('C12_reset_like_fresh / C12_history_irrelevant: R holds from any post-Reset state (arbitrary stale token buffer), so a reused parser is indistinguishable from a fresh one; tie: histories on one instance x U in {uint16,uint32,uint64,uint} x Size in {unset,1,32768} against fresh parsers, the Lean machine model run as one long-lived parser (St.reset threaded) against the real steps, every third T-run case of the core sweep as a second use of its parser, plus the uint16 width probe (known finding F-C12-1).',
+ 'C12': ('C12_reset_like_fresh / C12_history_irrelevant: R holds from any post-Reset state (arbitrary stale token buffer), so a reused parser is indistinguishable from a fresh one; tie: histories on one instance x U in {uint16,uint32,uint64,uint} x Size in {unset,1,32768} against fresh parsers, the Lean machine model run as one long-lived parser (St.reset threaded) against the real steps, every third T-run case of the core sweep as a second use of its parser, plus the uint16 width probe (former finding F-C12-1, fixed).',
          'integers are unbounded in the model (width is the known finding); slice capacity/growth invisible in the model (covered by the tie).'),
  'C13': ('C13_no_panic / C13_token_slices from R: no run ends in the panic outcome and all offsets are inside the rune sequence; C13_every_buffer_is_admissible: the Lean model of Go\'s []rune(string) decoding never yields the end symbol for ANY byte string (so R applies to every Buffer) and is no longer than the byte string; tie: byte-level inputs (invalid UTF-8, NUL, non-BMP, U+10FFFF, 90000 runes) on generated grammars (real vs model vs spec) and on the shipped grammars (no panic, offsets in range).',
          'as C01; for shipped grammars only the no-panic/offset oracle runs (their actions are arbitrary Go).'),
